@@ -55,6 +55,7 @@ type c04Result struct {
 	probes     map[string]int
 	digest     map[sim.ID]string // digest of every party's session-A output (compared with the unaltered run)
 	joint      string            // the joint value of session A that is meant to be random (sid / public key / signature nonce)
+	jointBy    map[sim.ID]string // per party: a further value derived from the session that must depend on that party's stream (hex)
 	log        []wireMsg
 	sendOrder  []wireMsg
 }
@@ -164,6 +165,20 @@ func scenarioSession() *c04Scenario {
 				}
 				res.digest[id] = d
 				res.joint = fmt.Sprintf("%x", c.SessionID())
+			}
+		}
+		// the joint values that are meant to be random include what is derived from the
+		// session later: for every party, the pairwise seed of a two-party sub-context it
+		// belongs to (zero shares of a signing sub-quorum are expanded from such seeds)
+		res.jointBy = map[sim.ID]string{}
+		for k, id := range c04IDs {
+			if e := res.ends[id]; e.done && e.err == nil && e.panic == nil {
+				other := c04IDs[(k+1)%len(c04IDs)]
+				if sub, err := e.out.(*session.Context).SubContext(quorumOf([]sim.ID{id, other})); err == nil {
+					if h, err := seedHead(sub, other, 32); err == nil {
+						res.jointBy[id] = fmt.Sprintf("%x", h)
+					}
+				}
 			}
 		}
 		// safety: honest parties that complete agree with each other (C10 clause for free leaves)
@@ -860,7 +875,7 @@ func c04Workload(name string, quickCells int) harness.Workload {
 				sort.SliceStable(cells, func(i, j int) bool { return cells[i]["cell"] < cells[j]["cell"] })
 				var sub, rest []map[string]string
 				for _, c := range cells {
-					if strings.Contains(c["cell"], "replaymsg:own-") {
+					if strings.Contains(c["cell"], "replaymsg:own-") || (strings.Contains(c["cell"], "|swapsibling:") && !sc.costlyRun) {
 						sub = append(sub, c)
 					} else {
 						rest = append(rest, c)
@@ -870,6 +885,15 @@ func c04Workload(name string, quickCells int) harness.Workload {
 					sub = append(sub, rest[k*len(rest)/quickCells])
 				}
 				cells = sub
+			}
+			if os.Getenv("VERIF_DEBUG") != "" {
+				k := 0
+				for _, c := range cells {
+					if strings.Contains(c["cell"], "|swapsibling:") {
+						k++
+					}
+				}
+				fmt.Printf("DEBUG %s: %d cells selected for tier %s, %d of them sibling swaps\n", name, len(cells), tier, k)
 			}
 			return cells, nil
 		}}
